@@ -64,3 +64,5 @@ Definition irs_ok (l : list ir) : bool := forallb ir_ok l.
 Definition irs_hold (a : Z -> bool) (l : list ir) : bool := forallb (ir_holds a) l.
 (* largest variable mentioned by a list of builder calls *)
 Definition irs_max_var (l : list ir) : Z := fold_right (fun i m => Z.max (max_var_clause (ir_lits i)) m) 0 l.
+(* certificate checker for the literal range of an instance (soundness: IRRange.irs_in_range_sound) *)
+Definition irs_in_range (n : Z) (l : list ir) : bool := irs_ok l && (irs_max_var l <=? n).
